@@ -208,7 +208,10 @@ def gen_thr_input(rng, i, boundary_heavy=False):
            "metric": metric, "alias": rng.random() < 0.3, "scalar": rng.random() < 0.3, "intdt": intdt, "f4dt": f4dt,
            "prior": prior_calls is None and rng.random() < 0.1, "prior_calls": prior_calls, "dtp": dtp, "dtn": dtn,
            "route": routes.pick(rng, 0.12) if (dtp is None and not intdt and not f4dt) else None,
-           "rseed": rng.randint(0, 2**31 - 1)}
+           "rseed": rng.randint(0, 2**31 - 1),
+           # how the constructor receives the scores: two views of one caller buffer (with further objects built from
+           # overlapping regions afterwards), or read-only arrays (what a pandas column hands out)
+           "ctor": rng.choice([None] * 8 + ["views", "readonly"]) if (dtp is None and not intdt and not f4dt) else None}
     if (prior_calls or inp["prior"]) and dtp is None and not intdt and not f4dt and not inp["route"] and rng.random() < 0.3:
         # the object's scores are REPLACED after the earlier queries (what FraudScores' genuines= / frauds= setters do: plain
         # assignment of pos / neg) by the same number of scores with a different range: anything remembered from the earlier
@@ -236,6 +239,7 @@ def build_thr(pid: str, inp, clauses) -> Case:
     from score_analysis import Scores
 
     inp = dict(inp)
+    pre0_ = []
     rs = [float(common.unjson_num(x)) for x in inp["rs"]]
     inp["rs"] = rs
     pos, neg = expand_scores(inp["pos"]), expand_scores(inp["neg"])
@@ -249,6 +253,21 @@ def build_thr(pid: str, inp, clauses) -> Case:
     elif inp.get("f4dt"):
         s = Scores(np.array(pos, dtype=np.float32), np.array(neg, dtype=np.float32), nb_easy_pos=inp["ep"],
                    nb_easy_neg=inp["en"], score_class=inp["sc"], equal_class=inp["ec"])
+    elif inp.get("ctor") == "views" and not inp.get("reassign") and not inp.get("big"):
+        s, changed_ = routes.from_views(Scores, pos, neg, nb_easy_pos=inp["ep"], nb_easy_neg=inp["en"], score_class=inp["sc"],
+                                        equal_class=inp["ec"])
+        if changed_:
+            pre0_ = [Issue("PROPFAIL", "bracket", "constructing Scores objects from views of one score vector: " + changed_ +
+                           " (objects built earlier no longer hold the scores they were given)", "ctor/caller-array-modified")]
+    elif inp.get("ctor") == "readonly" and not inp.get("reassign") and not inp.get("big"):
+        pa_, na_ = np.array(pos, dtype=float), np.array(neg, dtype=float)
+        pa_.flags.writeable = False
+        na_.flags.writeable = False
+        r_ro = common.call(Scores, pa_, na_, nb_easy_pos=inp["ep"], nb_easy_neg=inp["en"], score_class=inp["sc"], equal_class=inp["ec"])
+        if r_ro[0] == "exc":
+            return Case(pid, inp, [], lambda outs: [], ("ctor=readonly",), 0,
+                        [Issue("PROPFAIL", "raises", f"Scores(read-only arrays) raised {r_ro[1]}: {r_ro[2]}", f"ctor/raises/readonly/{r_ro[1]}")])
+        s = r_ro[1]
     elif inp.get("reassign"):
         s = Scores(expand_scores(inp["pos0"]), expand_scores(inp["neg0"]), nb_easy_pos=inp["ep"], nb_easy_neg=inp["en"],
                    score_class=inp["sc"], equal_class=inp["ec"])
@@ -282,7 +301,7 @@ def build_thr(pid: str, inp, clauses) -> Case:
     if inp.get("reassign"):
         s.pos = np.sort(np.asarray(pos, dtype=float))
         s.neg = np.sort(np.asarray(neg, dtype=float))
-    pre = []
+    pre = list(pre0_)
     ex = exact_case(inp) and not (routed and inp["route"].startswith("sample"))
     scale = max([abs(x) for x in pos + neg] + [1.0]) if not inp.get("big") else 1.0  # integer-valued scores: exact
     th = {}
